@@ -11,6 +11,8 @@ Correspondence (every case is evaluated inside Coq by vm_compute):
                                                             also on the render() functions of the built-in tags
 Direct property oracle (independent of the model): tag result == result of the equivalent Python call on the same function.
 """
+import collections
+import collections.abc
 import glob
 import inspect
 import itertools
@@ -19,6 +21,7 @@ import keyword
 import multiprocessing
 import os
 import time
+import types
 
 import common as C
 
@@ -33,6 +36,7 @@ T_POSONLY_DEFAULT = "c11-posonly-default"            # fixed in 3c868d2
 T_POSONLY_KW = "c11-posonly-name-as-kwarg"           # fixed in 81cf028
 T_DUP_SPECIAL = "c11-duplicate-special-key"          # fixed in 8478320
 T_NONSTR = "c11-nonstring-spread-key"                # fixed in 87d326f: a spread mapping has a key that is not a str (None, an int, a tuple)
+T_SPREAD_KIND = "c11-spread-container-kind"          # a spread value that is a Mapping but no dict / an iterable but no list
 T_OTHER = "c11-other"
 
 
@@ -250,6 +254,78 @@ def real_key(k):
     return k if isinstance(k, str) else NonStr(k).key
 
 
+# ---- what kind of object a spread value is: `...x` must act as **x for ANY Mapping and as *x for any other iterable ----
+class FrozenMap(collections.abc.Mapping):
+    """A hand-written Mapping that is not a dict subclass."""
+    def __init__(self, items):
+        self._keys = [k for k, _ in items]
+        self._d = dict(items)
+
+    def __getitem__(self, k):
+        return self._d[k]
+
+    def __iter__(self):
+        return iter(self._keys)
+
+    def __len__(self):
+        return len(self._keys)
+
+
+class Bag:
+    """A hand-written iterable (not a Sequence, not an iterator)."""
+    def __init__(self, items):
+        self._items = list(items)
+
+    def __iter__(self):
+        return iter(self._items)
+
+
+MAP_KINDS = ["dict", "proxy", "userdict", "chainmap", "frozenmap", "ordereddict"]
+SEQ_KINDS = ["list", "tuple", "range", "dict_keys", "bag", "iterator"]
+
+
+def make_mapping(kvs, kind="dict"):
+    d = dict((real_key(k), v) for k, v in kvs)
+    if kind == "dict":
+        return d
+    if kind == "proxy":
+        return types.MappingProxyType(d)
+    if kind == "userdict":
+        return collections.UserDict(d)
+    if kind == "chainmap":      # first half of the items in the front map, the rest behind it (iteration order differs; binding does not)
+        items = list(d.items())
+        h = (len(items) + 1) // 2
+        return collections.ChainMap(dict(items[:h]), dict(items[h:]))
+    if kind == "frozenmap":
+        return FrozenMap(list(d.items()))
+    if kind == "ordereddict":
+        return collections.OrderedDict(d)
+    raise ValueError(kind)
+
+
+def make_iterable(vs, kind="list"):
+    vs = list(vs)
+    if kind == "range" and vs and vs == list(range(vs[0], vs[0] + len(vs))):
+        return range(vs[0], vs[0] + len(vs))
+    if kind == "tuple":
+        return tuple(vs)
+    if kind == "dict_keys":
+        return dict.fromkeys(vs).keys()
+    if kind == "bag":
+        return Bag(vs)
+    if kind == "iterator":
+        return iter(vs)
+    return vs
+
+
+def spread_kind(a):
+    return a[2] if len(a) > 2 else ("list" if a[0] == "sl" else "dict")
+
+
+def spread_value(a):
+    return make_iterable(a[1], spread_kind(a)) if a[0] == "sl" else make_mapping(a[1], spread_kind(a))
+
+
 def entries_of(call):
     """(None, v) = positional, (str, v) = keyword, (NonStr, v) = item of a spread mapping whose key is not a str"""
     es = []
@@ -318,10 +394,31 @@ _expr_cache = {}
 
 
 def run_python(fn, out, sig, call):
-    """The equivalent Python call render(self, context, <entries in order>), every keyword written as **{k: v}
-    (the only spelling that exists for non-identifier keys; binding is the same as k=v)."""
+    """The equivalent Python call render(self, context, <arguments in order>): a keyword is written **{k: v} (the only spelling
+    that exists for non-identifier keys; binding is the same as k=v), a spread is written *A<i> resp. **A<i> with the very kind
+    of object the tag receives (Python accepts any iterable after * and any Mapping after **).  When, after flattening, a positional
+    argument follows a keyword one, the flattened spelling is used (so that the expected outcome is SyntaxError, see assumptions)."""
     es = entries_of(call)
-    expr = "f(S, X%s)" % "".join(", %d" % v if k is None else ", **{%r: %d}" % (k, v) for k, v in es)
+    env = {"f": fn, "S": SELF_OBJ, "X": CTX_OBJ}
+    seen_kw = star_after_kw = False
+    for a in call:
+        if a[0] in ("kw", "sd"):
+            seen_kw = True
+        elif a[0] == "sl" and seen_kw:
+            star_after_kw = True      # `f(**{..}, *xs)` is not even valid syntax; an EMPTY list spread there contributes nothing
+    if pos_after_kw(es) or star_after_kw:
+        expr = "f(S, X%s)" % "".join(", %d" % v if k is None else ", **{%r: %d}" % (k, v) for k, v in es)
+    else:
+        parts = []
+        for i, a in enumerate(call):
+            if a[0] == "pos":
+                parts.append(", %d" % a[1])
+            elif a[0] == "kw":
+                parts.append(", **{%r: %d}" % (a[1], a[2]))
+            else:
+                env["A%d" % i] = spread_value(a)
+                parts.append(", %sA%d" % ("*" if a[0] == "sl" else "**", i))
+        expr = "f(S, X%s)" % "".join(parts)
     del out[:]
     try:
         code = _expr_cache.get(expr)
@@ -329,7 +426,7 @@ def run_python(fn, out, sig, call):
             code = compile(expr, "<c11>", "eval")
             if len(_expr_cache) < 200000:
                 _expr_cache[expr] = code
-        eval(code, {"f": fn, "S": SELF_OBJ, "X": CTX_OBJ})
+        eval(code, env)
     except Exception as e:  # noqa
         return ("err", type(e).__name__)
     return canon_locals(sig, out[0], SELF_OBJ, CTX_OBJ)
@@ -370,12 +467,15 @@ class Probe:
             elif a[0] == "kw":
                 parts.append("%s=%d" % (a[1], a[2]))
             elif a[0] == "sl":
-                ctx["l%d" % i] = list(a[1])
+                ctx["l%d" % i] = spread_value(a)
                 parts.append("...l%d" % i)
             else:
-                ctx["d%d" % i] = dict((real_key(k), v) for k, v in a[1])
+                ctx["d%d" % i] = spread_value(a)
                 parts.append("...d%d" % i)
         src = "{% " + " ".join([self.tag] + parts) + " %}"
+        kinds = [spread_kind(a) for a in call if a[0] in ("sl", "sd") and spread_kind(a) not in ("list", "dict")]
+        if kinds:
+            src += "   (spread values: %s)" % ", ".join(kinds)
         del self.out[:]
         context = Context(ctx)
         try:
@@ -403,6 +503,8 @@ def classify(sig, call):
         return T_DUP_SPECIAL
     if any(d is not None for _, d in sig["po"][npos:]):
         return T_POSONLY_DEFAULT
+    if any(a[0] in ("sl", "sd") and spread_kind(a) not in ("list", "dict") for a in call):
+        return T_SPREAD_KIND
     return T_OTHER
 
 
@@ -477,7 +579,16 @@ def alphabet(sig, rich=False, nonstr=False):
     return al
 
 
-def concretise(sig, symbols):
+KIND_CTR = [0]      # every generated spread takes the next container kind (reset at the start of run(): deterministic)
+
+
+def next_kind(kinds):
+    KIND_CTR[0] += 1
+    return kinds[KIND_CTR[0] % len(kinds)]
+
+
+def concretise(sig, symbols, kinds=None):
+    """kinds: None = rotate through all container kinds; else a dict {"sl": kind, "sd": kind}"""
     names = param_names(sig)
     call = []
     for i, s in enumerate(symbols):
@@ -487,14 +598,25 @@ def concretise(sig, symbols):
         elif s[0] == "kw":
             call.append(["kw", s[1], v])
         elif s[0] == "sl":
-            call.append(["sl", [100 + 10 * i + j for j in range(s[1])]])
+            call.append(["sl", [100 + 10 * i + j for j in range(s[1])], kinds["sl"] if kinds else next_kind(SEQ_KINDS)])
         else:
             k0 = names[0] if names else "u"
             kvs = [[[k0, 100 + 10 * i], ["data-x", 101 + 10 * i]], [[names[-1] if names else "v", 100 + 10 * i]],
                    [["class", 100 + 10 * i], ["u", 101 + 10 * i]],
                    [[None, 100 + 10 * i]], [["u", 100 + 10 * i], [7, 101 + 10 * i]], [[["t"], 100 + 10 * i]]][s[1]]
-            call.append(["sd", kvs])
+            call.append(["sd", kvs, kinds["sd"] if kinds else next_kind(MAP_KINDS)])
     return call
+
+
+def kind_calls(sig):
+    """every container kind in every spread position of short calls: [spread], [positional, spread], [spread, keyword], [spread, spread]"""
+    names = param_names(sig)
+    k0 = ("kw", names[0] if names else "u")
+    shapes = [[("sd", 0)], [("sd", 1)], [("sd", 2)], [("sl", 2)], [("sl", 1)], [("pos",), ("sd", 0)], [("pos",), ("sl", 2)],
+              [("sl", 1), ("sd", 1)], [("sd", 1), k0], [("sl", 2), k0], [("sd", 2), ("sd", 1)], [("sl", 1), ("sl", 2)]]
+    for mk, sk in zip(MAP_KINDS[1:], SEQ_KINDS[1:]):
+        for syms in shapes:
+            yield concretise(sig, syms, {"sl": sk, "sd": mk})
 
 
 def exhaustive_calls(sig, maxlen):
@@ -699,6 +821,7 @@ def run(tier, seed):
     phases["prove"] = (chk.proof or {}).get("wall_s")
 
     # ---- 0. corpus: witnesses of fixed / reported defects, direct oracle first ----
+    KIND_CTR[0] = 0
     jobs = []
     for i, c in enumerate(load_corpus()):
         for v in range(3):      # BaseNode subclass, @template_tag, callable object (fallback path)
@@ -721,6 +844,12 @@ def run(tier, seed):
         for sig in all_sigs(n):
             idx += 1
             jobs.append((sig, list(nonstr_calls(sig, 2)), "exh-nonstr-key-n%d-len<=2" % n, idx))
+
+    # ---- 1b'. every container kind (Mapping that is no dict, iterable that is no list) in every spread position, all shapes n<=2 ----
+    for n in (0, 1, 2):
+        for sig in all_sigs(n):
+            idx += 1
+            jobs.append((sig, list(kind_calls(sig)), "exh-spread-kinds-n%d" % n, idx))
 
     # ---- 1c. structured, mostly valid longer calls on every shape n<=3 (n<=4 thorough), fast path and fallback ----
     for n in range(1, 5 if thorough else 4):
